@@ -59,6 +59,23 @@ pub fn gen_intervals(rng: &mut Rng, max_n: usize) -> Ivs {
         }
         return out;
     }
+    if rng.chance(1, 25) {
+        // exactly N intervals, N around a power of two
+        let n = *rng.pick(&[7usize, 8, 9, 15, 16, 17, 31, 32, 33, 63, 64, 65]);
+        let step = (MAXC / (n as u32 + 1)).max(4);
+        let jitter = rng.below(3) as u32;
+        let mut out: Ivs = Vec::new();
+        for i in 0..n as u32 {
+            let a = if rng.chance(1, 2) { i * 3 + jitter } else { i * step + jitter };
+            let b = a + if rng.chance(1, 2) { 0 } else { 1 };
+            if out.last().map_or(true, |l| l.1 < a) {
+                out.push((a, b.min(MAXC)));
+            }
+        }
+        if out.len() == n {
+            return out;
+        }
+    }
     if rng.chance(2, 5) {
         return gen_segments(rng, max_n);
     }
